@@ -13,6 +13,21 @@ host is a blocking host (next frame after the Done of the previous one), the
 PB messages and timers of all nodes are interleaved by a scheduler (Fifo,
 Random seeds, DelayInjection on the delivery of a half / on a poll, PCT).
 
+Application histories.  2-3 applications run one after another (InitNewApp,
+OpenEPRSocket..., subroutines, StopApp; a new host connection each) at the same
+NetQASM servers of ONE network that is never restarted; later applications
+re-use LOCAL EPR socket ids towards another remote socket id / another remote
+node (and the mirrored case, both ids swapped between two socket pairs, the
+identical pair again as control; a first application that only registers its
+sockets).  Every application is judged by the oracle below; in addition every
+`netqasm_add_epr_list` call must name a socket pair of a create request of the
+running application, StopApp must be answered and leave no qubit / queue entry
+behind, and the sequence numbers of a directed socket pair must be distinct
+over ALL applications.  A failing history is shrunk to the minimal sequence of
+applications (one request, one pair, FIFO).  A history is one run of the model
+(`reset` once): tied when no half is kept before the last application (the
+model has no StopApp), else judged by the oracle only.
+
 Oracle (independent of the Lean model): on the ReturnArray contents of both
 hosts -- exactly n results per request and side, the i-th results agree on
 sequence number and create id, name each other's node, directionality 0 / 1,
@@ -62,6 +77,11 @@ ASSUMPTIONS = [
     "netqasm writes a finished pair to the first pending request of the socket); the model executes cmd_epr atomically",
     "the network configuration file lists the nodes in arbitrary (mostly non-alphabetical) order; node ids are the "
     "positions in the sorted list of names",
+    "applications at one node run ONE AFTER ANOTHER (the next InitNewApp follows the StopApp of the previous one): the "
+    "EPR socket table of a node is per NetQASM server, not per application, so two applications open at the same time "
+    "at one node with the same local socket id are outside the contract.  Histories in which an application before "
+    "the last one keeps halves (create-and-keep) are judged by the oracle only: the model `Epr` has no StopApp, the "
+    "released halves would still occupy their physical qubit ids and registers there",
     "virtual nodes have capacity for the requested pairs (a refusal for lack of capacity is C11's subject; the leak it "
     "causes is reported under the key create-failure-leaks)",
     "error-free histories: the Lean theorems speak about runs of the model without an error result",
@@ -346,9 +366,13 @@ class Runner:
                         socks[li] = EPRSocket(a, t, s)
                 subs = sc["progs"].get(n, [])
                 fill = (capacity_fill or {}).get(n, 0)
-                if not subs and not fill:
+                # `open_idle`: a node with sockets but no request still runs its application (InitNewApp,
+                # OpenEPRSocket..., StopApp) -- the application histories need the registration alone
+                if not subs and not fill and not (sc.get("open_idle") and socks):
                     out[n] = []
                     continue
+                app = sc.get("app", 0)
+                app = app.get(n, 0) if isinstance(app, dict) else app
 
                 def fn(conn, subs=subs, socks=socks, fill=fill):
                     for _ in range(fill):
@@ -376,7 +400,7 @@ class Runner:
                                 else:
                                     e.recv_measure(number=r["n"])
                         conn.flush()
-                msgs = nq.program(n, fn, epr_sockets=[socks[k] for k in sorted(socks)], app_id=0, max_qubits=16)
+                msgs = nq.program(n, fn, epr_sockets=[socks[k] for k in sorted(socks)], app_id=app, max_qubits=16)
                 from netqasm.backend.messages import deserialize_host_msg
                 keep, tail = [], []
                 for m in msgs:
@@ -435,32 +459,35 @@ class Runner:
         raise core.MachineryError("unknown scheduler %r" % (sd,))
 
     def run(self, sc, max_qubits=40, capacity_fill=None, stop_after=False):
-        """execute; returns an observation dict (see the keys at the end)"""
+        """execute ONE scenario on a fresh network; returns an observation dict (see the keys at the end of `phase`)"""
+        se = self.open(sc["nodes"], config_order(sc), sc["rng"], max_qubits=max_qubits)
+        try:
+            return self.phase(se, sc, capacity_fill=capacity_fill, stop_after=stop_after)
+        finally:
+            se.nq.close()
+
+    def open(self, nodes, order, seed, max_qubits=40):
+        """a fresh long-lived network with the recording wrappers installed; `phase` runs one application per node
+        on it (several calls = several applications one after another at the same NetQASM servers)"""
         S = self.S
-        nodes = sc["nodes"]
         # netqasm keeps the executors' shared memories in a process-global table keyed by (node name, app id)
         from netqasm.sdk.shared_memory import SharedMemoryManager
         SharedMemoryManager.reset_memories()
         # the network configuration file lists the nodes in the order of the scenario (`order`, else `nodes`: a random
         # sample, a rotation, a reversed list ... -- in general NOT alphabetical); node ids are, by definition
         # (get_node_id_from_net_config, the SDK), the positions in the SORTED list of names whatever the file order
-        nq = S.NqNet(config_order(sc), max_qubits=max_qubits, rng=random.Random(sc["rng"]))
-        ids = {n: i for i, n in enumerate(sorted(nodes))}
-        names = {i: n for n, i in ids.items()}
+        nq = S.NqNet(order, max_qubits=max_qubits, rng=random.Random(seed))
+        se = _Session()
+        se.nq, se.nodes = nq, list(nodes)
+        se.ids = {n: i for i, n in enumerate(sorted(nodes))}
+        se.names = {i: n for n, i in se.ids.items()}
+        se.new_logs()
         EX = nq._EX
-        ev = []          # the global event log for the tie
-        choices_log = []
 
         def my_choices(population, weights=None, **kw):
-            choices_log.append(([getattr(p, "name", str(p)) for p in population], list(weights)))
+            se.choices_log.append(([getattr(p, "name", str(p)) for p in population], list(weights)))
             return nq.rng.choices(population, weights, **kw)
         EX.random = S._RandomProxy(nq.rng, choices=my_choices)
-        curpair, currecv = {}, {}
-        cidmap = {}                         # (node, remote node id, create id) -> request record
-        allpairs = {n: [] for n in nodes}   # per node: every cmd_epr record
-        maxopen = {}                        # per node: largest number of cmd_epr running at the same time
-        reqlog = {n: [] for n in nodes}     # per node: request records in program order
-        sample_log = []                     # (RandomBasis name, spec, what random.choices received or None, basis)
 
         for n in nodes:
             ex = nq.facs[n].backend._executor
@@ -471,33 +498,33 @@ class Runner:
                 o_meas, o_newid, o_sample = ex._measure_epr_qubit, ex._get_new_create_id, ex._sample_basis_choice
 
                 def sample(random_basis_set, probability_dist_spec):
-                    k = len(choices_log)
+                    k = len(se.choices_log)
                     b = o_sample(random_basis_set=random_basis_set, probability_dist_spec=probability_dist_spec)
                     from netqasm.qlink_compat import RandomBasis as _RB
                     rbn = random_basis_set.name if hasattr(random_basis_set, "name") else _RB(random_basis_set).name
-                    sample_log.append((rbn,
-                                       [int(x) for x in probability_dist_spec],
-                                       choices_log[k] if len(choices_log) > k else None, b.name))
+                    se.sample_log.append((rbn,
+                                          [int(x) for x in probability_dist_spec],
+                                          se.choices_log[k] if len(se.choices_log) > k else None, b.name))
                     return b
 
                 def do_create(**kw):
-                    reqlog[n].append({"role": "c", "addr": kw["ent_results_array_address"], "remote": kw["remote_node_id"],
-                                      "sock": kw["epr_socket_id"], "pairs": []})
+                    se.reqlog[n].append({"role": "c", "addr": kw["ent_results_array_address"], "remote": kw["remote_node_id"],
+                                         "sock": kw["epr_socket_id"], "pairs": []})
                     return o_create(**kw)
 
                 def do_recv(**kw):
-                    reqlog[n].append({"role": "r", "addr": kw["ent_results_array_address"], "remote": kw["remote_node_id"],
-                                      "sock": kw["epr_socket_id"], "pairs": []})
+                    se.reqlog[n].append({"role": "r", "addr": kw["ent_results_array_address"], "remote": kw["remote_node_id"],
+                                         "sock": kw["epr_socket_id"], "pairs": []})
                     return o_recv(**kw)
 
                 def new_id(remote_node_id):
                     c = o_newid(remote_node_id=remote_node_id)
-                    ev.append(("newcreate", n, remote_node_id, c))
+                    se.ev.append(("newcreate", n, remote_node_id, c))
                     # _do_create_epr draws the id before its first yield: the request being started is the last one logged
                     # (with several requests in flight at this node, "the last one" is no longer right later on)
-                    mine = [q for q in reqlog[n] if q["role"] == "c"]
+                    mine = [q for q in se.reqlog[n] if q["role"] == "c"]
                     if mine:
-                        cidmap[(n, remote_node_id, c)] = mine[-1]
+                        se.cidmap[(n, remote_node_id, c)] = mine[-1]
                         mine[-1].setdefault("cid", c)
                     return c
 
@@ -505,10 +532,10 @@ class Runner:
                     rec = {"cid": kw["create_id"], "remote": kw["remote_node_id"], "sock": kw["epr_socket_id"],
                            "rsock": kw["remote_epr_socket_id"], "qid": kw["qubit_id"],
                            "typ": kw["create_request"].type.name, "meas": [],
-                           "req": cidmap.get((n, kw["remote_node_id"], kw["create_id"]), reqlog[n][-1]), "done": None}
-                    curpair[n] = rec
-                    allpairs[n].append(rec)
-                    maxopen[n] = max(maxopen.get(n, 0), sum(1 for r in allpairs[n] if r["done"] is None))
+                           "req": se.cidmap.get((n, kw["remote_node_id"], kw["create_id"]), se.reqlog[n][-1]), "done": None}
+                    se.curpair[n] = rec
+                    se.allpairs[n].append(rec)
+                    se.maxopen[n] = max(se.maxopen.get(n, 0), sum(1 for r in se.allpairs[n] if r["done"] is None))
                     d = o_epr(**kw)
 
                     def fin(x, rec=rec):
@@ -519,7 +546,7 @@ class Runner:
 
                 def meas(**kw):
                     d = o_meas(**kw)
-                    rec = curpair.get(n)
+                    rec = se.curpair.get(n)
 
                     def got(x, rec=rec):
                         if rec is not None and isinstance(x, tuple):
@@ -529,7 +556,7 @@ class Runner:
                     return d
 
                 def cmd_epr_recv(epr_socket_id, qubit_id=None):
-                    currecv[n] = {"sock": epr_socket_id, "qid": qubit_id, "req": reqlog[n][-1]}
+                    se.currecv[n] = {"sock": epr_socket_id, "qid": qubit_id, "req": se.reqlog[n][-1]}
                     return o_erecv(epr_socket_id=epr_socket_id, qubit_id=qubit_id)
                 ex._do_create_epr, ex._do_recv_epr, ex.cmd_epr, ex.cmd_epr_recv = do_create, do_recv, cmd_epr, cmd_epr_recv
                 ex._measure_epr_qubit, ex._get_new_create_id, ex._sample_basis_choice = meas, new_id, sample
@@ -539,25 +566,36 @@ class Runner:
                 o_add, o_get = node.remote_netqasm_add_epr_list, node.remote_netqasm_get_epr_recv
 
                 def add(fromName, from_sock, to_sock, new_virt_num, rawEntInfo):
-                    rec = curpair.get(fromName)
+                    rec = se.curpair.get(fromName)
                     raw = list(rawEntInfo)
                     # several pairs in flight at the creator: the one this half belongs to, by its entanglement info
                     # (socket + create id: the pairs of ONE request are made one after the other)
-                    mine = [r for r in allpairs.get(fromName, []) if r["done"] is None and r["sock"] == from_sock
+                    mine = [r for r in se.allpairs.get(fromName, []) if r["done"] is None and r["sock"] == from_sock
                             and len(raw) > 1 and r["cid"] == raw[1]]
                     if len(mine) == 1:
                         rec = mine[0]
-                    ev.append(("pair", fromName, n, from_sock, to_sock, rec, list(rawEntInfo)))
+                    se.ev.append(("pair", fromName, n, from_sock, to_sock, rec, list(rawEntInfo)))
                     return o_add(fromName, from_sock, to_sock, new_virt_num, rawEntInfo)
 
                 def get(to_sock):
                     r = o_get(to_sock)
-                    rc = currecv.get(n)
-                    ev.append(("recv", n, to_sock, dict(rc) if rc else None, None if not r else list(r[1])))
+                    rc = se.currecv.get(n)
+                    se.ev.append(("recv", n, to_sock, dict(rc) if rc else None, None if not r else list(r[1])))
                     return r
                 node.remote_netqasm_add_epr_list, node.remote_netqasm_get_epr_recv = add, get
             wrap_node()
+        return se
 
+    def phase(self, se, sc, capacity_fill=None, stop_after=False):
+        """one application per node (InitNewApp, OpenEPRSocket..., Subroutine... on a NEW host connection each) on the
+        open network `se`; with stop_after the applications are stopped (StopApp) once the observation is taken.
+        The recording containers are fresh per call."""
+        S = self.S
+        nq, nodes, ids, names = se.nq, se.nodes, se.ids, se.names
+        se.new_logs()
+        ev, choices_log, curpair, reqlog, sample_log, maxopen = (se.ev, se.choices_log, se.curpair, se.reqlog,
+                                                                 se.sample_log, se.maxopen)
+        log0 = len(nq.pylog)
         progs = self.build_programs(nq, sc, capacity_fill)
         hosts = {}
         for n in nodes:
@@ -620,18 +658,38 @@ class Runner:
                "samples": sample_log, "choices": choices_log, "reqlog": reqlog, "replies": replies, "maxopen": maxopen,
                "snap": snap, "joint": joint, "hang": hang, "steps": steps,
                "unfinished": [n for n in hosts if hosts[n]["done"] < len(hosts[n]["msgs"])],
-               "errors": [(lv, lg, tx.split("\n")[0]) for (lv, lg, tx) in nq.pylog if lv == "ERROR"],
+               "errors": [(lv, lg, tx.split("\n")[0]) for (lv, lg, tx) in nq.pylog[log0:] if lv == "ERROR"],
                "locks_free": nq.all_locks_free()}
         if stop_after:
+            nstop = {}
             for n in order:
                 h = hosts[n]
                 for m in h["stop"]:
                     nq.feed(h["p"], S.frame(h["sent"], m))
                     h["sent"] += 1
+                    nstop[n] = nstop.get(n, 0) + 1
                     nq.settle()
+            nq.flush_decrefs()
             obs["snap_after_stop"] = nq.snapshot()
-        nq.close()
+            # (class name, msg id) of what each host received for its StopApp
+            obs["stop_replies"] = {n: [x[:2] for x in S.parse_replies(hosts[n]["t"].value())[len(replies[n]):]] for n in hosts}
+            obs["stops_sent"] = nstop
+            obs["locks_free_after_stop"] = nq.all_locks_free()
         return obs
+
+
+class _Session:
+    """one open network and the containers the recording wrappers write to (fresh per application phase)"""
+
+    def new_logs(self):
+        self.ev = []            # the global event log for the tie
+        self.choices_log = []
+        self.curpair, self.currecv = {}, {}
+        self.cidmap = {}                              # (node, remote node id, create id) -> request record
+        self.allpairs = {n: [] for n in self.nodes}   # per node: every cmd_epr record
+        self.maxopen = {}                             # per node: largest number of cmd_epr running at the same time
+        self.reqlog = {n: [] for n in self.nodes}     # per node: request records in program order
+        self.sample_log = []                          # (RandomBasis name, spec, what random.choices received or None, basis)
 
 
 def config_order(sc):
@@ -754,17 +812,42 @@ def regroup_same_socket(sc, obs, rr, viol, notes):
             rr[ri] = new[ri]
 
 
-def oracle(sc, obs, table, viol, notes):
-    """judge one execution; viol(key, what)"""
+def oracle(sc, obs, table, viol, notes, acc=None):
+    """judge one execution; viol(key, what).  `acc` (application histories): dict collecting the sequence numbers per
+    directed socket pair over the applications of one long-lived network"""
     ids = obs["ids"]
+    # every half / outcome record is handed to the receiving node for the socket pair its request names: the
+    # (creator, socket, receiver, socket) of each `netqasm_add_epr_list` call is a directed socket pair on which the
+    # programs of this execution have a create request
+    named = set()
+    for r in sc["reqs"]:
+        a, s, b, t = sc["links"][r["link"]]
+        named.add((a, s, b, t) if r["dir"] == 0 else (b, t, a, s))
+    for e in obs["ev"]:
+        if e[0] == "pair" and (e[1], e[3], e[2], e[4]) not in named:
+            viol("delivery:wrong-socket-pair",
+                 "a half / outcome record created at %s:%s was delivered to %s:%s; the create requests of this application "
+                 "name the socket pairs %s" % (e[1], e[3], e[2], e[4],
+                                               sorted("%s:%d -> %s:%d" % x for x in named)))
+            break
     if obs["hang"]:
         fl, lk = obs["inflight"], obs["locks"]
-        cross = [(a, b) for a in fl for b in fl if a < b and fl[a]["typ"] == "K" and fl[b]["typ"] == "K"
-                 and fl[a]["remote"] == b and fl[b]["remote"] == a and lk[a]["node"] and lk[b]["node"]]
-        if cross:
-            viol("crossing-sends-deadlock", "create_keep %s -> %s and %s -> %s at the same time: both send_epr_half hold "
-                 "their own node lock and wait for the other's (%s)" % (cross[0][0], cross[0][1], cross[0][1], cross[0][0],
-                                                                       obs["hang"]))
+        # wait-for cycle of create-and-keep requests (the sender holds its own node lock while add_qubit waits,
+        # without time-out, for the receiver's): length 2 = crossing requests, longer = cyclic requests; one
+        # root cause (open finding, same as C04's crossing/cyclic sends)
+        cyc = None
+        for a in sorted(fl):
+            path, x = [], a
+            while x in fl and fl[x]["typ"] == "K" and lk.get(x, {}).get("node") and x not in path:
+                path.append(x)
+                x = fl[x]["remote"]
+            if x in path and len(path) - path.index(x) >= 2:
+                cyc = path[path.index(x):]
+                break
+        if cyc:
+            viol("crossing-sends-deadlock", "create_keep requests %s at the same time form a wait-for cycle: every "
+                 "send_epr_half holds its own node lock and waits for the next node's (%s)" % (
+                     " , ".join("%s -> %s" % (c, fl[c]["remote"]) for c in cyc), obs["hang"]))
         else:
             viol("hang", "scenario did not finish: %s; in flight %s" % (obs["hang"], fl))
         return
@@ -880,6 +963,8 @@ def oracle(sc, obs, table, viol, notes):
     for key, l in seqs.items():
         if len(set(l)) != len(l):
             viol("info:seq-repeated", "sequence numbers %s of pairs created at %s:%d for %s:%d repeat" % ((l,) + key))
+        if acc is not None:
+            acc.setdefault(key, []).extend(l)
     for key, l in per_sock.items():
         if len(set(l)) != len(l):
             viol("info:seq-repeated-at-socket", "(directionality, sequence number) %s repeat at %s:%d" % ((l,) + key))
@@ -912,10 +997,11 @@ def mask(sl):
     return " ".join(str(int(x)) for x in sl)
 
 
-def tie_lines(sc, obs):
-    """(lines, expectations) for one error-free execution; expectation = (text or None, what)"""
+def tie_lines(sc, obs, first=True, last=True):
+    """(lines, expectations) for one error-free execution; expectation = (text or None, what).  An application history
+    is one model run: `reset` before its first application only, the final picture after its last one only."""
     ids = obs["ids"]
-    lines, exp = ["reset"], [("ok", "reset")]
+    lines, exp = (["reset"], [("ok", "reset")]) if first else ([], [])
     arr = {n: arrays_of(obs["replies"].get(n, [])) for n in sc["nodes"]}
     for e in obs["ev"]:
         if e[0] == "newcreate":
@@ -966,8 +1052,9 @@ def tie_lines(sc, obs):
         for s, ln in obs["snap"][n]["recv_epr"].items():
             lines.append("queue %d %s" % (ids[n], s))
             exp.append((str(ln), "queue length %s:%s" % (n, s)))
-    lines.append("state %d" % len(sc["nodes"]))
-    exp.append((impl_state(obs), "registers, holders and groups"))
+    if last:
+        lines.append("state %d" % len(sc["nodes"]))
+        exp.append((impl_state(obs), "registers, holders and groups"))
     return lines, exp
 
 
@@ -1001,7 +1088,8 @@ def run(ctx):
                 "NONE/XZ/XYZ and arbitrary probability parameters), opposite directions at once, one SDK program per "
                 "node split into 1..k subroutines, start offsets, schedulers Fifo / Random / DelayInjection / PCT, config "
                 "file listing the nodes in random order; pipelined hosts (2-3 sockets, 2 neighbours, 2-3 K or M requests "
-                "on ONE socket pair); plus "
+                "on ONE socket pair); application histories (2-3 applications one after another on one long-lived network, "
+                "EPR socket ids re-used towards other remote ids / nodes, K and M, n = 1..2, Fifo / Random / DelayInjection); plus "
                 "the fixed corpus (one K, one M per basis set, both directions, receiver at capacity) and the exhaustive "
                 "weight / basis-set / outcome tables; non-trivial = at least one request completed; distinct by descriptor")
     table = _md_table()
@@ -1078,9 +1166,72 @@ def run(ctx):
                 lines.extend(t[0])
                 exp.extend((w, what, sc, base) for (w, what) in t[1])
 
+    def execute_history(h):
+        try:
+            return run_history(runner, h)
+        except core.MachineryError:
+            raise
+        except Exception as e:
+            import traceback
+            return {"crash": "%s: %s" % (type(e).__name__, e), "tb": traceback.format_exc()[-1500:]}
+
+    def one_history(h, kind):
+        obslist = execute_history(h)
+        if isinstance(obslist, dict):
+            res.violation("harness-crash:" + obslist["crash"].split(":")[0], "executing the application history raised %s"
+                          % obslist["crash"], {"history": h, "traceback": obslist["tb"]})
+            res.case(h, nontrivial=False)
+            return
+        bad = judge_history(h, obslist, table, notes)
+        res.count(kind)
+        res.count("history:%d-applications" % len(h["apps"]))
+        res.count("history:shape:%s" % h.get("shape"))
+        res.count("history:app-ids:" + ("all-0" if all(ph.get("app", 0) == 0 for ph in h["apps"]) else "several"))
+        for ph in h["apps"]:
+            res.count("sched:" + ph["sched"]["kind"])
+            for r in ph["reqs"]:
+                res.count("req:%s" % r["typ"] + (":%s/%s" % (r["rbl"], r["rbr"]) if r["typ"] == "M" else ""))
+                res.count("pairs", r["n"])
+        res.case({k: h[k] for k in ("nodes", "order", "apps")}, nontrivial=any(ph["reqs"] for ph in h["apps"]))
+        if bad:
+            seen = set()
+            for key, what in bad:
+                if key in seen:
+                    continue
+                seen.add(key)
+                rep = {"history": h, "what": what}
+                # shrink to the minimal sequence of applications (and requests) failing the same way
+                nkey[key] = nkey.get(key, 0) + 1
+                if nkey[key] <= 3:
+                    for h1 in itertools.islice(shrink_history_candidates(h), 100):
+                        o1 = execute_history(h1)
+                        if isinstance(o1, dict):
+                            continue
+                        b1 = [w for k1, w in judge_history(h1, o1, table, {}) if k1 == key]
+                        if b1:
+                            rep = {"history": h1, "what": b1[0], "shrunk_from": h["id"]}
+                            what = b1[0]
+                            break
+                res.violation(key, what, rep)
+            return
+        if ctx.lean_ok:
+            t = history_tie(h, obslist)
+            if t is None:
+                # oracle only: the model has no StopApp (halves kept by an earlier application stay in its registers)
+                res.count("history:kept-halves-before-last-application:oracle-only")
+            else:
+                res.count("history:tied")
+                base = len(lines)
+                lines.extend(t[0])
+                exp.extend((w, what, h, base) for (w, what) in t[1])
+
     # ---- replay of a recorded failing input
     if getattr(ctx, "replay", None):
         inp = ctx.replay.get("input", {})
+        if inp.get("history"):
+            one_history(inp["history"], "replay")
+            finish_tie(ctx, res, lines, exp, table)
+            return res
         sc = inp.get("scenario")
         if sc:
             if inp.get("capacity"):
@@ -1102,6 +1253,14 @@ def run(ctx):
     nsc = ctx.scale(600, 9000)
     for i in range(nsc):
         one(gen_scenario(ctx.rng, i, ctx.thorough), "random")
+    # ---- several applications one after another at the same nodes of one long-lived network, EPR socket ids re-used
+    for h in history_scenarios(ctx.rng, ctx.scale(1, 6)):
+        one_history(h, "history")
+    if res.dist.get("history"):
+        res.notes.append("application histories: %d run, %d tied as one run of the model `Epr`, %d judged by the oracle only "
+                         "(an application before the last one keeps halves; the model has no StopApp)" % (
+                             res.dist["history"], res.dist.get("history:tied", 0),
+                             res.dist.get("history:kept-halves-before-last-application:oracle-only", 0)))
     # ---- exhaustive tables against the model
     if ctx.lean_ok:
         table_queries(runner, lines, exp, table, ctx.thorough)
@@ -1310,6 +1469,233 @@ def concurrent_scenarios(rng, rounds):
                             "rng": rng.randrange(1 << 30)})
                 k += 1
     return out
+
+
+# --------------------------------------------------------------------------
+# application histories: several applications one after another on ONE long-lived network
+# --------------------------------------------------------------------------
+
+def seq_programs(nodes, links, reqs):
+    """per node one subroutine per request, in the global request order (no create is moved before an earlier
+    receive, so requests of one application never cross)"""
+    progs = {n: [] for n in nodes}
+    for i, r in enumerate(reqs):
+        a, _, b, _ = links[r["link"]]
+        c, rcv = (a, b) if r["dir"] == 0 else (b, a)
+        progs[c].append([["c", i]])
+        progs[rcv].append([["r", i]])
+    return progs
+
+
+def phase_scenario(hist, k):
+    """application k of a history as an ordinary scenario descriptor (what `Runner.phase` and `oracle` take)"""
+    ph = hist["apps"][k]
+    return {"id": "%s/app%d" % (hist["id"], k), "nodes": hist["nodes"], "links": ph["links"], "reqs": ph["reqs"],
+            "progs": ph["progs"], "sched": ph["sched"], "starts": ph.get("starts") or {n: 0 for n in hist["nodes"]},
+            "app": ph.get("app", 0), "open_idle": True, "rng": hist["rng"]}
+
+
+def history_scenarios(rng, rounds):
+    """Histories of 2-3 applications at the same NetQASM servers of one network that is never restarted.  Every
+    application: InitNewApp, OpenEPRSocket for each of its sockets, its create / receive subroutines (create-and-keep
+    and measure-directly, n = 1..2, both directions of every socket pair, one after the other), StopApp -- each on a
+    new host connection.  Later applications open EPR sockets whose LOCAL ids were used before, towards a different
+    remote socket id / a different remote node; the mirrored case (same remote id, other local id); both ids swapped
+    between two socket pairs; and the control (identical ids again: the sequence numbers go on).  Some first
+    applications only register their sockets and stop."""
+    shapes = []
+    for names in (["Alice", "Bob", "Charlie"], ["Charlie", "Alice", "Bob"], ["Bob", "Charlie", "Alice"]):
+        a, b, c = names
+        shapes += [
+            ("local-reused:other-remote-id", [a, b], [[[a, 0, b, 0]], [[a, 0, b, 1]]]),
+            ("local-reused:other-remote-id:idle-first", [a, b], [[[a, 0, b, 0]], [[a, 0, b, 1]]]),
+            ("local-reused:other-remote-node", [a, b, c], [[[a, 0, b, 0]], [[a, 0, c, 0]]]),
+            ("local-reused:other-node-and-id", [a, b, c], [[[a, 1, b, 0]], [[c, 2, a, 1]]]),
+            ("remote-reused:other-local-id", [a, b], [[[a, 0, b, 0]], [[a, 1, b, 0]]]),
+            ("reopened-identical", [a, b], [[[a, 0, b, 0]], [[a, 0, b, 0]]]),
+            ("reopened-identical-3", [a, b], [[[b, 1, a, 2]], [[b, 1, a, 2]], [[b, 1, a, 2]]]),
+            ("swapped", [a, b], [[[a, 0, b, 0], [a, 1, b, 1]], [[a, 0, b, 1], [a, 1, b, 0]]]),
+            ("there-and-back", [a, b], [[[a, 0, b, 0]], [[a, 0, b, 1]], [[a, 0, b, 0]]]),
+            ("rotating-peers", [a, b, c], [[[a, 0, b, 0]], [[a, 0, c, 0]], [[b, 0, c, 0]]]),
+            ("two-peers-then-crossed", [a, b, c], [[[a, 0, b, 0], [a, 1, c, 0]], [[a, 0, c, 0], [a, 1, b, 0]]]),
+        ]
+
+    def request(link, d, typ):
+        r = {"link": link, "dir": d, "n": rng.choice([1, 1, 2]), "typ": typ}
+        if typ == "M":
+            r["rbl"] = rng.choice(["NONE", "XZ", "XYZ"])
+            r["rbr"] = rng.choice(["NONE", "XZ", "XYZ"])
+            r["pl"] = {"NONE": [0, 0], "XZ": [128, 0], "XYZ": [85, 85]}[r["rbl"]]
+            r["pr"] = {"NONE": [0, 0], "XZ": [128, 0], "XYZ": [85, 85]}[r["rbr"]]
+        return r
+
+    out = []
+    k = 0
+    for rnd in range(rounds):
+        for si, (name, nodes, phases) in enumerate(shapes):
+            kinds = ["fifo"] if rnd == 0 and si < len(shapes) // 3 else []
+            kinds.append(rng.choice(["random", "delay"]))
+            for kind in kinds:
+                # all applications use id 0 (what the SDK does in a fresh host process), or count up, or differ per node
+                appmode = rng.choice(["zero", "zero", "count", "mixed"])
+                early_m = rng.random() < 0.5        # no kept qubits before the last application: the history is tied
+                apps = []
+                for pi, links in enumerate(phases):
+                    last = pi == len(phases) - 1
+                    reqs = []
+                    if not (name.endswith("idle-first") and pi == 0):
+                        for li in range(len(links)):
+                            dirs = [0, 1] if rng.random() < 0.7 else [rng.randrange(2)]
+                            rng.shuffle(dirs)
+                            for d in dirs:
+                                reqs.append(request(li, d, "M" if (early_m and not last) else rng.choice(["K", "M"])))
+                        rng.shuffle(reqs)
+                    if kind == "fifo":
+                        sd = {"kind": "fifo", "seed": 0}
+                    elif kind == "random":
+                        sd = {"kind": "random", "seed": rng.randrange(1 << 30)}
+                    else:
+                        sd = {"kind": "delay", "seed": rng.randrange(1 << 30),
+                              "what": rng.choice(["call:netqasm_send_epr_half", "call:netqasm_add_epr_list",
+                                                  "call:netqasm_get_epr_recv", "call:add_qubit", "answer"]),
+                              "k": rng.randrange(6), "until": rng.choice([1, 3, 8, 20]), "timers": rng.random() < 0.5}
+                    app = 0 if appmode == "zero" else pi if appmode == "count" else \
+                        {n: rng.choice([0, pi, pi + 1]) for n in nodes}
+                    apps.append({"app": app, "links": [list(l) for l in links], "reqs": reqs,
+                                 "progs": seq_programs(nodes, links, reqs), "sched": sd,
+                                 "starts": {n: 0 if kind == "fifo" else rng.choice([0, 0, 3, 10, 40]) for n in nodes}})
+                order = list(nodes)
+                rng.shuffle(order)
+                out.append({"id": "history%d:%s:%s" % (k, name, kind), "shape": name, "nodes": list(nodes), "order": order,
+                            "apps": apps, "rng": rng.randrange(1 << 30)})
+                k += 1
+    return out
+
+
+def run_history(runner, hist):
+    """the applications of `hist` one after another on one network; one observation per application that ran (the
+    history ends at the first application that hangs or is answered with an error)"""
+    se = runner.open(hist["nodes"], config_order(hist), hist["rng"])
+    out = []
+    try:
+        for k in range(len(hist["apps"])):
+            obs = runner.phase(se, phase_scenario(hist, k), stop_after=True)
+            out.append(obs)
+            if obs["hang"] or any(x[0] == "ErrorMessage" for rep in obs["replies"].values() for x in rep):
+                break
+    finally:
+        se.nq.close()
+    return out
+
+
+def judge_history(hist, obslist, table, notes):
+    """[(key, what)]: every application by the ordinary oracle, then what its StopApp leaves behind, then the sequence
+    numbers of each directed socket pair over ALL applications"""
+    bad, acc = [], {}
+    for k, obs in enumerate(obslist):
+        sc = phase_scenario(hist, k)
+        mine = []
+        oracle(sc, obs, table, lambda key, w: mine.append((key, "application %d of %d: %s" % (k + 1, len(hist["apps"]), w))),
+               notes, acc)
+        if not mine:
+            tag = "application %d of %d" % (k + 1, len(hist["apps"]))
+            for n, rep in sorted(obs["stop_replies"].items()):
+                want = obs["stops_sent"].get(n, 0)
+                if [x[0] for x in rep].count("MsgDoneMessage") != want or any(x[0] == "ErrorMessage" for x in rep):
+                    mine.append(("history:stop-not-answered", "%s: StopApp at %s answered with %s" % (tag, n, rep)))
+            after = obs["snap_after_stop"]
+            for n in hist["nodes"]:
+                if after[n]["virt"] or after[n].get("qubitList"):
+                    mine.append(("history:qubits-left-after-stop", "%s: after StopApp %s still holds %d qubit(s), "
+                                 "qubitList %s" % (tag, n, len(after[n]["virt"]), sorted(after[n].get("qubitList", {})))))
+                if any(v for v in after[n]["recv_epr"].values()):
+                    mine.append(("history:queue-left-after-stop", "%s: after StopApp %s has undelivered entries %s" % (
+                        tag, n, after[n]["recv_epr"])))
+            if not obs["locks_free_after_stop"]:
+                mine.append(("history:locks-held-after-stop", "%s: a lock is held after StopApp" % tag))
+        bad += mine
+        if mine:
+            break
+    for key, l in sorted(acc.items()):
+        if len(set(l)) != len(l):
+            bad.append(("info:seq-repeated-across-applications",
+                        "sequence numbers %s of the pairs created at %s:%d for %s:%d over the applications of one "
+                        "network repeat" % ((l,) + key)))
+    return bad
+
+
+def sub_history(hist, picks, n1=False):
+    """the history reduced to the applications picks = [(application index, request indices to keep)] (no request:
+    the application only registers its sockets and stops), all under FIFO, all hosts starting at once; with n1 every
+    request asks for ONE pair"""
+    apps = []
+    for j, keep in picks:
+        ph = hist["apps"][j]
+        new_index = {ri: k for k, ri in enumerate(keep)}
+        progs = {}
+        for n in hist["nodes"]:
+            subs = []
+            for sub in ph["progs"].get(n, []):
+                ops = [[kind, new_index[ri]] for kind, ri in sub if ri in new_index]
+                if ops:
+                    subs.append(ops)
+            progs[n] = subs
+        apps.append({"app": ph.get("app", 0), "links": ph["links"],
+                     "reqs": [dict(ph["reqs"][ri], n=1) if n1 else dict(ph["reqs"][ri]) for ri in keep],
+                     "progs": progs, "sched": {"kind": "fifo", "seed": 0}, "starts": {n: 0 for n in hist["nodes"]}})
+    return {"id": "%s/apps%s%s/fifo" % (hist["id"], [[j, list(keep)] for j, keep in picks], "/n=1" if n1 else ""),
+            "shape": hist.get("shape"),
+            "nodes": hist["nodes"], "order": config_order(hist), "apps": apps, "rng": hist["rng"]}
+
+
+def shrink_history_candidates(hist):
+    """smallest first: one application with one request; two applications, the earlier one only registering its
+    sockets; two applications with one request each; three applications; everything under FIFO -- each first with
+    one pair per request, then with the original numbers"""
+    for picks in _shrink_picks(hist):
+        if any(hist["apps"][j]["reqs"][i]["n"] > 1 for j, keep in picks for i in keep):
+            yield sub_history(hist, picks, n1=True)
+        yield sub_history(hist, picks)
+
+
+def _shrink_picks(hist):
+    na = len(hist["apps"])
+    nr = [len(ph["reqs"]) for ph in hist["apps"]]
+    for j in range(na):
+        for i in range(nr[j]):
+            yield [(j, [i])]
+    for j in range(na):
+        for k in range(j + 1, na):
+            for i in range(nr[k]):
+                yield [(j, []), (k, [i])]
+    for j in range(na):
+        for k in range(j + 1, na):
+            for h in range(nr[j]):
+                for i in range(nr[k]):
+                    yield [(j, [h]), (k, [i])]
+    if na > 2:
+        for i in range(nr[-1]):
+            yield [(j, []) for j in range(na - 1)] + [(na - 1, [i])]
+        for i in range(nr[-1]):
+            yield [(j, list(range(nr[j]))) for j in range(na - 1)] + [(na - 1, [i])]
+    yield [(j, list(range(nr[j]))) for j in range(na)]
+
+
+def history_tie(hist, obslist):
+    """(lines, expectations) of the whole history as ONE run of the model `Epr` (its counters and queues live as long
+    as the network, like the class attributes and node tables they mirror), or None where the line protocol cannot
+    express it: the model has no StopApp, so halves kept by an EARLIER application would still occupy their physical
+    qubit ids and registers there"""
+    if any(r["typ"] == "K" for ph in hist["apps"][:-1] for r in ph["reqs"]):
+        return None
+    lines, exp = [], []
+    for k, obs in enumerate(obslist):
+        t = tie_lines(phase_scenario(hist, k), obs, first=(k == 0), last=(k == len(obslist) - 1))
+        if t is None:
+            return None
+        lines += t[0]
+        exp += t[1]
+    return lines, exp
 
 
 def capacity_scenario():
